@@ -134,7 +134,7 @@ def strat_strings():
     prefixes, anchored and unanchored patterns): the main generator reaches these boundary arguments too rarely."""
     from hypothesis import strategies as st
 
-    pool = ["", "a", "b", "ab", "ba", "abc", "aab", "\u00e9", "a\u00e9", "\u00e9\u00e9b", " ", "A"]
+    pool = ["", "a", "b", "ab", "ba", "abc", "aab", "\u00e9", "a\u00e9", "\u00e9\u00e9b", " ", "A", "AB", "Ab", "a\nb", "b\n"]
     bound = st.sampled_from([None, 0, 0, 1, 2, 3])
 
     @st.composite
@@ -151,7 +151,10 @@ def strat_strings():
         elif k in ("str_startswith", "str_endswith"):
             cs = {"kind": k, "args": {"string": draw(st.sampled_from(["", "a", "ab", "b", "\u00e9", " "]))}}
         elif k in ("str_matches", "str_contains"):
-            cs = {"kind": k, "args": {"pattern": draw(st.sampled_from(gen.PATTERNS + ["", "^$", "a|b", "\u00e9", ".*"]))}}
+            cs = {"kind": k, "args": {"pattern": draw(st.sampled_from(gen.PATTERNS + ["", "^$", "a|b", "\u00e9", ".*", "A", "AB", "a.b", "^b$"]))}}
+            if draw(st.integers(0, 2)) == 0:  # compiled, with flags that matter for the data pool (case, newlines)
+                cs["args"]["flags"] = draw(st.sampled_from([[], ["IGNORECASE"], ["IGNORECASE"], ["DOTALL"], ["MULTILINE"],
+                                                            ["IGNORECASE", "MULTILINE"]]))
         elif k == "equal_to":
             cs = {"kind": k, "args": {"value": draw(st.sampled_from(pool))}}
         else:
